@@ -326,3 +326,169 @@ Example C07_example_listener :
   = [0;1;0;1;0;0;0;0;0;  0;2;0;2;0;0;0;0;0;  0;2;1;2;0;0;1;0;0;  0;2;1;2;0;1;1;0;0;
      0;1;1;1;1;1;1;0;0;  0;0;1;0;1;2;0;1;0].
 Proof. vm_compute. reflexivity. Qed.
+
+(* ==== second strengthening: error results, pings, forced Close races, relay pending ========= *)
+From Verif Require Import Model.CloseRace Model.ClosePinned2 Proofs.ConnCloseXP Proofs.CloseRaceP
+  Proofs.ClosePinned2P Gen.GenClose2 Proofs.CloseGen2P.
+
+(* Model/ConnClose.v now has two more thread kinds: TFinInErr id code -- the handler of a call
+   answers with a SYSTEM ERROR (InboundCallResponse.SendSystemError: the error frame is queued,
+   then doneSending removes the exchange) -- and TPing id -- a ping req from the peer (answered
+   unless the connection is Closed).  Every theorem above is stated over Reach ConnClose.step and
+   therefore quantifies over all interleavings with any number of such threads too.  The model
+   describes the REPAIRED code (two more fix: commits). *)
+
+(* (a) for ERROR results: a finished handler thread that answered call [id] with system error
+   [code] (one byte) queued exactly one error frame (id, code), or none and the connection is
+   Closed. *)
+Theorem C07_error_result : forall relay s n id code, Reach ConnClose.step (ConnClose.init relay) s ->
+  code_ok code = true ->
+  nth_error (thr s) n = Some (PDone (oErrBase + code) id) -> answered (sh s) n id code.
+Proof. exact conn_error_result. Qed.
+Print Assumptions C07_error_result.
+
+(* ... and without a connection failure the second alternative is excluded for an accepted
+   call: when the handler of a dispatched call whose exchange is still registered is about to
+   send, the connection is at most in StartClose, its step queues exactly the frame (id, code),
+   and the exchange is still registered afterwards -- the removal that may close the connection
+   follows the frame. *)
+Theorem C07_error_result_queued : forall relay s n id code, Reach ConnClose.step (ConnClose.init relay) s ->
+  stopped (sh s) = false -> code_ok code = true ->
+  nth_error (thr s) n = Some (PErr id code) -> In (id, true) (inb (sh s)) ->
+  st (sh s) <= sSC /\
+  exists s', ConnClose.step s (LRun n) = Some s' /\
+    nth_error (thr s') n = Some (PErrRm id code) /\
+    replies_of n (sh s') = [(n, id, code)] /\
+    In (id, true) (inb (sh s')) /\ st (sh s') = st (sh s).
+Proof. exact conn_error_queued. Qed.
+Print Assumptions C07_error_result_queued.
+
+(* the handler thread can only finish with the outcome "answered with code", and its first step
+   is the send *)
+Theorem C07_error_outcomes : forall id code,
+  err_pc id code (start_pc (TFinInErr id code)) = true /\
+  (forall s n p s' p', err_pc id code p = true -> tstep s n p = Some (s', p') -> err_pc id code p' = true) /\
+  (forall s n s' p', tstep s n (PErr id code) = Some (s', p') -> s' = send_err s n id code /\ p' = PErrRm id code).
+Proof. exact conn_err_outcomes. Qed.
+Print Assumptions C07_error_outcomes.
+
+(* Pings.  On a connection that is not Closed -- also while it drains -- a ping req is answered
+   in two steps that change no shared variable (state, exchanges, stoppedExchanges: the calls
+   being drained are untouched); only a Closed connection takes the protocol-error path. *)
+Theorem C07_ping_steps : forall s n id,
+  (st s <> sCl -> tstep s n (PPing id) = Some (s, PPong id)) /\
+  (st s = sCl -> tstep s n (PPing id) = Some (s, PProtoSend id)) /\
+  tstep s n (PPong id) = Some (s, PDone oPong id).
+Proof. exact conn_ping_steps. Qed.
+Print Assumptions C07_ping_steps.
+
+(* while an accepted call holds the connection open (no connection failure) a ping is answered *)
+Theorem C07_ping_drain : forall relay s n id idc, Reach ConnClose.step (ConnClose.init relay) s ->
+  stopped (sh s) = false -> nth_error (thr s) n = Some (PPing id) -> In (idc, true) (inb (sh s)) ->
+  exists s', ConnClose.step s (LRun n) = Some s' /\ sh s' = sh s /\ nth_error (thr s') n = Some (PPong id).
+Proof. exact conn_ping_drain. Qed.
+Print Assumptions C07_ping_drain.
+
+Theorem C07_ping_outcomes : forall id,
+  ping_pc id (start_pc (TPing id)) = true /\
+  (forall s n p s' p', ping_pc id p = true -> tstep s n p = Some (s', p') -> ping_pc id p' = true) /\
+  (forall o i, ping_pc id (PDone o i) = true -> i = id /\ (o = oPong \/ o = oProto)).
+Proof. exact conn_ping_outcomes. Qed.
+Print Assumptions C07_ping_outcomes.
+
+(* The forced Close races of engine closerace (Model/CloseRace.v): on the whole domain of the
+   engine -- six scenario kinds, 0..3 other calls in flight, every one-byte error code, every
+   position of the target in the completion order -- the model's observable EQUALS the
+   specification written from the statement (a raced request is answered with exactly one
+   declined frame while the connection is open; an accepted call's result, response or error,
+   reaches the peer; a ping on a draining connection is answered; then Closed, signalled once),
+   and the scenario only visits reachable states of the connection system. *)
+Theorem C07_closerace_spec : forall kind k code pos rest,
+  0 <= kind <= 5 -> 0 <= k <= 3 -> 0 <= code <= 255 -> 0 <= pos <= k ->
+  run_closerace (kind :: k :: code :: pos :: rest) = spec_closerace kind k code.
+Proof. exact closerace_spec. Qed.
+Print Assumptions C07_closerace_spec.
+
+Theorem C07_closerace_reachable : forall kind k code pos,
+  Reach ConnClose.step (ConnClose.init false) (race_state kind k code pos).
+Proof. exact closerace_reachable. Qed.
+Print Assumptions C07_closerace_reachable.
+
+(* ---- the code before the two fix: commits, as refuted clauses ------------------------------- *)
+Theorem C07_pinned2_flag_false_is_repaired :
+  (forall s ls, run (step_p false) s ls = run ConnClose.step s ls) /\
+  (forall relay s, Reach (step_p false) (ConnClose.init relay) s <-> Reach ConnClose.step (ConnClose.init relay) s).
+Proof. exact pinned2_false_is_repaired. Qed.
+Print Assumptions C07_pinned2_flag_false_is_repaired.
+
+(* (d) handlePingReq refusing every state but Active: with no connection failure in the schedule
+   (call 5 dispatched; Close; ping req 9) the ping ends in protocolError -- stoppedExchanges set,
+   both exchange sets shut down under the accepted call 5, a Protocol error frame queued. *)
+Theorem C07_ping_drain_pinned_refuted : exists s,
+  Reach (step_p true) (ConnClose.init false) s /\
+  thr s = [PDone oDispatched 5; PDone oCloseOk 0; PDone oProto 9] /\
+  In (5, true) (inb (sh s)) /\ st (sh s) = sSC /\
+  stopped (sh s) = true /\ inb_shut (sh s) = true /\ outb_shut (sh s) = true /\
+  g_replies (sh s) = [(2%nat, 9, eProtocol)].
+Proof. exact ping_drain_pinned_refuted. Qed.
+Print Assumptions C07_ping_drain_pinned_refuted.
+
+(* (e) InboundCallResponse.SendSystemError shutting the exchange down BEFORE sending: after the
+   handler's removal (thread 2) has run to its end the connection is Closed, with no connection
+   failure, and the SendSystemError issued next queues nothing whatever the code. *)
+Theorem C07_error_result_pinned_order_refuted : exists s,
+  Reach ConnClose.step (ConnClose.init false) s /\
+  thr s = [PDone oDispatched 5; PDone oCloseOk 0; PDone oRemoved 5] /\
+  st (sh s) = sCl /\ stopped (sh s) = false /\ g_replies (sh s) = [] /\
+  forall n code, send_err (sh s) n 5 code = sh s.
+Proof. exact error_result_pinned_order_refuted. Qed.
+Print Assumptions C07_error_result_pinned_order_refuted.
+
+(* the same two histories on the repaired model: ping res, nothing else changed / exactly one
+   error frame (5, Busy), then Closed and signalled once *)
+Example C07_example_witnesses2_repaired :
+  (exists s, run ConnClose.step (ConnClose.init false) (ping_witness 2) = Some s /\
+     thr s = [PDone oDispatched 5; PDone oCloseOk 0; PDone oPong 9] /\
+     In (5, true) (inb (sh s)) /\ st (sh s) = sSC /\ stopped (sh s) = false /\ inb_shut (sh s) = false /\
+     g_replies (sh s) = []) /\
+  (exists s, run ConnClose.step (ConnClose.init false) err_sent_first = Some s /\
+     thr s = [PDone oDispatched 5; PDone oCloseOk 0; PDone (oErrBase + 3) 5] /\
+     st (sh s) = sCl /\ g_replies (sh s) = [(2%nat, 5, 3)] /\ g_stop_closes (sh s) = 1).
+Proof. exact (conj ping_witness_repaired error_witness_repaired). Qed.
+
+(* ---- statement ties regenerated from inbound.go, connection.go and relay.go ------------------ *)
+(* Gen/GenClose2.v: (1) InboundCallResponse.SendSystemError is accepted only with the send before
+   doneSending() (marker lets) and is the model's PErr step; (2) the state test of handlePingReq is
+   the model's PPing step; (3) the three functions that END a relay item (timeoutRelayItem,
+   failRelayItem, finishRelayItem) and the no-destination branch of Relayer.handleCallReq give
+   back the unit of Relayer.pending exactly when they took the item -- on the originating and on
+   the forwarding side alike -- which is the model's single decrement step PRelLive; C07_drain's
+   "pending = number of admitted unfinished relayed calls" rests on it. *)
+Theorem C07_decisions2_generated :
+  (forall s n id code, code_ok code = true ->
+     handlerErrOrder = 1 /\
+     tstep s n (PErr id code) = Some (send_err s n id code, if handlerErrOrder =? 1 then PErrRm id code else PDone 0 0)) /\
+  (forall s n id,
+     tstep s n (PPing id) = Some (s, if pingReqAnswer (st s) =? 1 then PPong id else PProtoSend id)) /\
+  (pingReqAnswer sA = 1 /\ pingReqAnswer sSC = 1 /\ pingReqAnswer sIC = 1 /\ pingReqAnswer sCl = 0) /\
+  (forall s n id orig slow,
+     let done p := Some (set_pending s p (deln n (g_live s)), PCE0 (KDone oRelDone id)) in
+     tstep s n (PRelLive id) = done (relayTimeoutPending true orig (pending s)) /\
+     tstep s n (PRelLive id) = done (relayFinishPending true orig (pending s)) /\
+     tstep s n (PRelLive id) = done (relayFailPending true true true orig slow (pending s)) /\
+     tstep s n (PRelLive id) = done (relayNoDestPending true (pending s))) /\
+  (forall orig p, relayTimeoutPending false orig p = p /\ relayFinishPending false orig p = p) /\
+  (forall found stopped ok orig slow p, found && stopped && ok = false ->
+     relayFailPending found stopped ok orig slow p = p) /\
+  (forall p, relayNoDestPending false p = p).
+Proof. exact close2_generated. Qed.
+Print Assumptions C07_decisions2_generated.
+
+(* non-vacuity: kind 0 with nothing else in flight -- request 200 registered, Close, re-check:
+   declined frame (200, 4), then its own removal closes the connection, signalled once;
+   kind 2: the last call in flight answers with system error 3 while the connection drains *)
+Example C07_example_closerace :
+  run_closerace [0; 0; 0; 0; 1] = [4; 1; 1; 200; 4; 0] /\
+  run_closerace [2; 1; 3; 1; 0] = [4; 1; 1; 200; 3; 0] /\
+  run_closerace [3; 2; 0; 0; 1] = [4; 1; 0; 1].
+Proof. vm_compute. repeat split. Qed.
